@@ -5,7 +5,6 @@ package drivers
 // credential class; an impostor plugin announces one certificate and serves with another.
 
 import (
-	plugin "github.com/hashicorp/go-plugin"
 	"bufio"
 	"context"
 	"crypto/ecdsa"
@@ -16,6 +15,7 @@ import (
 	"crypto/x509/pkix"
 	"encoding/json"
 	"fmt"
+	plugin "github.com/hashicorp/go-plugin"
 	"math/big"
 	"net"
 	"net/rpc"
